@@ -743,3 +743,15 @@ def run(prog: Program, rep: Report, tier: str):
     sub.rule("R09.4", "", 0)
     c09.r09_4(prog, sub)
     absorb(rep, sub, {"R09.4": "R11.6"})
+    # codecs: which types travel verbatim is decided on the unwrapped / evaluated annotation (the clauses of R02.2 / R02.5
+    # that concern wrappers and references)
+    from . import c02 as _c02
+
+    rep.rule("R11.9", "the codec's verbatim-bytes decision sees through wrappers and references (shared with R02.2 / R02.5)", floor=3)
+    sub = Report("C11", tier)
+    for r in ("R02.2", "R02.5"):
+        sub.rule(r, "", 0)
+    _c02.r02_5(prog, sub)
+    _c02.r02_2(prog, sub)
+    sub.obligations = [o for o in sub.obligations if o.rule == "R02.5" or "bytes-guard" in o.key or "#resolved" in o.key or "reference" in o.key]
+    absorb(rep, sub, {"R02.2": "R11.9", "R02.5": "R11.9"})
